@@ -263,7 +263,9 @@ def sevenzip_cases():
 
 
 _BATCH = r"""
-import sys, io, importlib, json, resource
+import sys, io, importlib, json, resource, faulthandler
+if len(sys.argv) > 7:
+    faulthandler.dump_traceback_later(float(sys.argv[7]), exit=True)          # confirmation run: say WHERE the call is stuck
 try:
     resource.setrlimit(resource.RLIMIT_AS, (3 << 30, 3 << 30))      # hostile counts must not eat the machine: MemoryError instead
 except Exception:
@@ -316,12 +318,24 @@ def batch_probe(repo, modpath, fn, path_arg, cases, single_timeout=30, per_case=
             if not finished:
                 one = os.path.join(d, "one.json")
                 json.dump([(label, data.hex())], open(one, "w"))
+                stuck, where = False, []
                 try:
-                    subprocess.run([sys.executable, "-c", _BATCH, repo, modpath, fn, one, path_arg, "0"], timeout=single_timeout, capture_output=True, cwd=repo)
+                    c1 = subprocess.run([sys.executable, "-c", _BATCH, repo, modpath, fn, one, path_arg, "0", str(max(2, single_timeout - 4))],
+                                        timeout=single_timeout + 20, capture_output=True, text=True, cwd=repo)
+                    if "DONE" not in (c1.stdout or "") and "Timeout (" in (c1.stderr or ""):
+                        stuck = True
+                        where = [l.strip() for l in c1.stderr.splitlines() if l.strip().startswith("File ")]
                 except subprocess.TimeoutExpired:
+                    stuck = True
+                # a call stuck inside olefile's property parser is the RECORDED finding C01-olefile-property-vector-count-trusted (a loop of the
+                # third-party parser over a count read from the stream, decided by its own bounded scope obligation on every run): it says nothing
+                # about the loop this search was started for, so the search goes on behind that input
+                if stuck and where and any("olefile" in w and ("_parse_property" in w or "getproperties" in w) for w in where[:4]):
+                    stuck = False
+                if stuck:
                     return {"reproduced": True, "target": f"{modpath}.{fn}", "inputs": {"case": label, "as": path_arg, "bytes": len(data), "hex": data.hex()[:400]},
                             "expected": "terminates (extraction results or an ExtractionError)",
-                            "observed": f"no result within {single_timeout} s (child process killed)"}
+                            "observed": f"no result within {max(2, single_timeout - 4)} s (child process stopped); innermost frames: " + " <- ".join(where[:3])[:400]}
             first = i + 1            # crashed (e.g. killed by the memory limit) or merely slow: go on behind it
     return None
 
